@@ -285,6 +285,15 @@ def rule_r4(ctx) -> List[R.Inst]:
         insts.append(R.viol("C16.R4", "sorted.key-direction", file, c.lineno,
                             "sorted() does not sort by offset with ascending = not reverse into a new list",
                             construct=unparse(c)[:160]))
+    rets = returns_of(fn.node)
+    other = [r for r in rets if r.value is None or not any(x is c for x in ast.walk(r.value))]
+    if other:
+        insts.append(R.viol("C16.R4", "sorted.new-list", file, other[0].lineno,
+                            f"a path returns '{unparse(other[0].value) if other[0].value is not None else None}' instead of the sorted copy: sorting a "
+                            f"sequence always yields a NEW sequence, here the caller gets the list itself back and an edit of the result "
+                            f"edits the original", construct=f"sorted: return {unparse(other[0].value) if other[0].value is not None else None}"))
+    else:
+        insts.append(R.ok("C16.R4", "sorted.new-list", file, c.lineno, idiom="every path returns the sorted copy"))
     if stable:
         insts.append(R.ok("C16.R4", "sorted.stable", file, c.lineno, idiom=f"kind={C.const_str(kind)!r}"))
     else:
@@ -311,6 +320,24 @@ def rule_r5(ctx) -> List[R.Inst]:
     sort_ok = any(isinstance(n, ast.IfExp) and unparse(n.test) == "sort" and "sorted" in unparse(n.body) and
                   "sorted" not in unparse(n.orelse) for n in ast.walk(fn.node)) or any(
         isinstance(n, ast.If) and unparse(n.test) == "sort" for n in ast.walk(fn.node))
+    # the concatenated frame is what the new list holds: no cast / reshaping between the concat and the constructor
+    ctor = [n for n in walk_no_nested(fn.node) if isinstance(n, ast.Call) and unparse(n.func) in ("self.__class__", "type(self)")]
+    carried = None
+    if ctor and ctor[0].args:
+        a0 = ctor[0].args[0]
+        if a0 is c or any(x is c for x in ast.walk(a0)) and not any(isinstance(x, ast.Call) and x is not c and isinstance(x.func, ast.Attribute)
+                                                                  and any(y is c for y in ast.walk(x.func.value)) for x in ast.walk(a0)):
+            carried = True
+        elif isinstance(a0, ast.Name):
+            defs_ = [n for n in walk_no_nested(fn.node) if isinstance(n, ast.Assign) and isinstance(n.targets[0], ast.Name) and n.targets[0].id == a0.id]
+            carried = len(defs_) == 1 and defs_[0].value is c
+            if not carried and defs_:
+                extra = [unparse(d_.value)[:70] for d_ in defs_ if d_.value is not c]
+                if order_ok and ign_ok and sort_ok:
+                    return [R.viol("C16.R5", "append", file, defs_[-1].lineno,
+                                   f"the concatenated rows are transformed before they become the new list ('{extra[0]}'): appending must keep "
+                                   f"every value as it is (a cast to the receiver's dtypes truncates a fractional value appended to an "
+                                   f"integer-typed list)", construct=f"append: {extra[0]}")]
     if order_ok and ign_ok and sort_ok:
         return [R.ok("C16.R5", "append", file, c.lineno, idiom="concat([self.df, val], ignore_index=True); sorted iff sort")]
     why = []
@@ -850,7 +877,7 @@ SPECS = [
     RuleSpec("C16.R1", rule_r1, 2, "A7", "int index is positional; other indices re-wrap df[...] in the receiver's class"),
     RuleSpec("C16.R2", rule_r2, 2, "A7", "__len__ = rows; __iter__ yields one item per row in row order"),
     RuleSpec("C16.R3", rule_r3, 8, "A8", "first/last = min/max of offset (tail for holds); overrides keep guard and normalisation"),
-    RuleSpec("C16.R4", rule_r4, 2, "A7", "sorted: key offset, ascending = not reverse, stable"),
+    RuleSpec("C16.R4", rule_r4, 3, "A7", "sorted: key offset, ascending = not reverse, stable"),
     RuleSpec("C16.R5", rule_r5, 1, "A7", "append: concat [self, val], fresh index, optional sort"),
     RuleSpec("C16.R6", rule_r6, 14, "A7", "filter comparator truth tables for every flag combination"),
     RuleSpec("C16.R7", rule_r7, 28, "A2", "item constructor kwargs = declared fields"),
